@@ -39,7 +39,9 @@ structure State where
   hops : Nat                         -- `self.hops`
   attached : Bool                    -- `self.tunnel_community is not None`
   comm : Community                   -- the tunnel community object (it outlives detaching)
-  listeners : List Listener          -- `self.endpoint._listeners`
+  listeners : List Listener          -- `self.endpoint._listeners` (global listeners, `add_listener`)
+  plisteners : List (Bytes × Listener)  -- listeners registered by prefix (`add_prefix_listener`: every Community)
+  nextOverlay : Nat                  -- overlays loaded so far (their listener ids are 1000, 1001, …)
 deriving Repr, DecidableEq
 
 /-- what the outside can observe of one call -/
@@ -81,7 +83,10 @@ inductive Op
   /-- … and what it does after the delay: `self.circuits.pop(circuit_id, None)` -/
   | removeDone (cid : Nat)
   | addListener (l : Listener)
-  | notify (fromTunnel : Bool)
+  /-- `TunnelEndpoint.notify_listeners((origin, p), from_tunnel)` -/
+  | notify (fromTunnel : Bool) (p : Bytes)
+  /-- `Community.unload` of the overlay with that listener id: `remove_listener` (forwarded to the wrapped endpoint) -/
+  | unloadOverlay (lid : Nat)
 deriving Repr, DecidableEq
 
 /-! ### Python containers -/
@@ -136,7 +141,8 @@ def Community.create (cm : Community) (goalHops : Nat) (ctype : CType) : Communi
 
 def init (cap : Nat) : State :=
   { cap := cap, settings := [], queue := [], hops := initHops, attached := false,
-    comm := { circuits := [], nextId := 1, canCreate := true, failAfter := none }, listeners := [] }
+    comm := { circuits := [], nextId := 1, canCreate := true, failAfter := none }, listeners := [],
+    plisteners := [], nextOverlay := 0 }
 
 /-- `self.settings.get(packet[:22], False)` -/
 def State.anonymized (s : State) (p : Bytes) : Bool :=
@@ -190,9 +196,20 @@ def send (s : State) (a : Addr) (p : Bytes) : State × List Event :=
         ({ s with queue := q }, lost.map (fun x => .drop true x.1 x.2))
     | some c => sendOver s c a p
 
-/-- `TunnelEndpoint.notify_listeners(packet, from_tunnel)` -/
-def notify (s : State) (fromTunnel : Bool) : List Event :=
-  (s.listeners.filter (fun l => l.anonymize.getD false == fromTunnel)).map (fun l => .deliver l.lid)
+/-- keep the first occurrence of every listener (a listener is offered a packet once) -/
+def dedupL : List Listener → List Listener
+  | [] => []
+  | l :: ls => if (dedupL ls).any (fun m => m.lid = l.lid) then dedupL ls else l :: dedupL ls
+
+/-- the listeners the wrapped endpoint has for a packet: `_prefix_map.get(prefix, _listeners)` — those registered for
+    the packet's prefix together with the global ones (as a set; the driver prints deliveries sorted) -/
+def State.listenersFor (s : State) (p : Bytes) : List Listener :=
+  dedupL (((s.plisteners.filter (fun e => e.1 = p.take prefixLen)).map (·.2)) ++ s.listeners)
+
+/-- `TunnelEndpoint.notify_listeners(packet, from_tunnel)`: every listener for the packet whose `anonymize`
+    (absent = False) equals `from_tunnel`, once -/
+def notify (s : State) (fromTunnel : Bool) (p : Bytes) : List Event :=
+  ((s.listenersFor p).filter (fun l => l.anonymize.getD false == fromTunnel)).map (fun l => .deliver l.lid)
 
 /-- `Community._prefix` -/
 def overlayPrefix (cid : Bytes) : Bytes := communityPrefixHead ++ cid
@@ -202,7 +219,10 @@ def step (s : State) : Op → State × List Event
   | .setAnonymity pfx en => ({ s with settings := dictSet s.settings pfx en }, [])
   | .setTunnelCommunity att h => ({ s with attached := att, hops := h }, [])
   | .overlay cid anon =>
-      if anon then ({ s with settings := dictSet s.settings (overlayPrefix cid) true }, []) else (s, [])
+      -- registers itself by prefix (`add_prefix_listener`), carries `self.anonymize`, and opts in if asked to
+      ({ s with settings := if anon then dictSet s.settings (overlayPrefix cid) true else s.settings,
+                plisteners := s.plisteners ++ [(overlayPrefix cid, { lid := 1000 + s.nextOverlay, anonymize := some anon })],
+                nextOverlay := s.nextOverlay + 1 }, [])
   | .newCircuit g t =>
       ({ s with comm := { s.comm with
             circuits := s.comm.circuits ++ [{ cid := s.comm.nextId, goalHops := g, ctype := t, closing := false, hops := [] }],
@@ -219,7 +239,8 @@ def step (s : State) : Op → State × List Event
   | .removeRequest cid => ({ s with comm := { s.comm with circuits := closeById cid s.comm.circuits } }, [])
   | .removeDone cid => ({ s with comm := { s.comm with circuits := popById cid s.comm.circuits } }, [])
   | .addListener l => ({ s with listeners := s.listeners ++ [l] }, [])
-  | .notify ft => (s, notify s ft)
+  | .notify ft p => (s, notify s ft p)
+  | .unloadOverlay lid => ({ s with plisteners := s.plisteners.filter (fun e => e.2.lid ≠ lid) }, [])
 
 /-- the state after a history -/
 def runState (s : State) : List Op → State
